@@ -278,15 +278,24 @@ Iterate(tree, st, method, t, par, dr) ==
   ELSE AdvancePlayer(AdvancePlayer(StepPre(tree, st, method, dr), 1, t, t, par), 2, t, t, par)
 
 \* did some advance of this iteration break a tie or take a fragile decision?
+\* Fragile is judged only on infosets this pass VISITED: the regrets of an infoset the (sampled) pass did not visit are,
+\* bit for bit, what the previous advance left - a zero among them is the product with a discount factor that is exactly
+\* zero (alpha or beta = -inf), an injected zero or a structural zero, all exact in floating point as well; a zero that
+\* was computed in an earlier visited pass was flagged there (no positive regret) or ties with the zeros the discount
+\* produced (Tie).  An unsampled pass visits every infoset.
+VisitedBy(cs, p, i) == \E k \in 1..Len(cs) : cs[k].pl = p /\ cs[k].info = i
 IterTie(tree, st, method, t, par, dr) ==
   IF method = "External"
-  THEN LET a == Apply(st, EContrib(tree, st, 1, dr, 1))
+  THEN LET cs1 == EContrib(tree, st, 1, dr, 1)
+           a == Apply(st, cs1)
            b == AdvancePlayer(a, 1, t, t - 1, par)
-           c == Apply(b, EContrib(tree, b, 2, dr, 2))
-       IN (\E i \in DOMAIN a[1] : Tie(a[1][i], par) \/ Fragile(a[1][i]))
-            \/ (\E i \in DOMAIN c[2] : Tie(c[2][i], par) \/ Fragile(c[2][i]))
-  ELSE LET a == StepPre(tree, st, method, dr)
-       IN \E p \in 1..2 : \E i \in DOMAIN a[p] : Tie(a[p][i], par) \/ Fragile(a[p][i])
+           cs2 == EContrib(tree, b, 2, dr, 2)
+           c == Apply(b, cs2)
+       IN (\E i \in DOMAIN a[1] : Tie(a[1][i], par) \/ (VisitedBy(cs1, 1, i) /\ Fragile(a[1][i])))
+            \/ (\E i \in DOMAIN c[2] : Tie(c[2][i], par) \/ (VisitedBy(cs2, 2, i) /\ Fragile(c[2][i])))
+  ELSE LET cs == VContrib(tree, st, method = "Sampled", dr, One, <<One, One>>)
+           a == Apply(st, cs)
+       IN \E p \in 1..2 : \E i \in DOMAIN a[p] : Tie(a[p][i], par) \/ (VisitedBy(cs, p, i) /\ Fragile(a[p][i]))
 
 \* the state after T iterations from the documented initial state; draws = sequence over iterations
 RECURSIVE Run(_, _, _, _, _, _)
